@@ -165,6 +165,11 @@ theorem sliceIndices_pos (a b : Option Int) (c : Int) (hc : 0 < c) (n : Nat) :
 
 /-! ### `Roi.crop` in one dimension -/
 
+/-- The ROI lies inside a raw image of `H` rows and `W` columns and is not empty. -/
+def Roi.Within (r : Roi) (H W : Nat) : Prop :=
+  0 ≤ r.xMin ∧ r.xMin < r.xMax ∧ r.xMax ≤ W ∧ 0 ≤ r.yMin ∧ r.yMin < r.yMax ∧ r.yMax ≤ H
+
+
 theorem cropBound_eq_pyNorm (dim : Nat) (dflt : Int) (p : Option Int) :
     cropBound dim dflt p = (pyNorm dim (p.getD dflt) : Int) := by
   unfold cropBound pyNorm
